@@ -1,5 +1,7 @@
 """C10 — random_reference picks existing, correctly scoped targets; unique never repeats.
-Model: coq/theories/RowHistory.v (+ RandRange.v for `unique`); theorems: coq/props/C10.v."""
+Model: coq/theories/RowHistory.v (+ RandRange.v for `unique`); theorems: coq/props/C10.v.
+Case kinds: script (kernel, one unique context), recipe (end to end, one call site; non-unique ones also against the
+interpreter model), mscript (kernel, several call sites), multi (recipes with several call sites, compared as traces)."""
 import io
 from collections import Counter
 
@@ -21,12 +23,26 @@ RULE = ("(i) kernel: the real RowHistory / RandomReferenceContext objects driven
         "nested / friend placement (targets growing while being consumed), just_once targets, 1-3 iterations, "
         "unique with every count pair (targets 0..6, pickers 0..8), draws biased to both ends of every interval; "
         "oracle: target written earlier, right table / nickname, from the current iteration if it has one, unique "
-        "never repeats and fails when exhausted.  non-trivial: >= 1 random reference was produced; distinct by case hash")
+        "never repeats and fails when exhausted; (iii) several call sites: kernel scripts in which 2-4 call sites (states "
+        "fetched through the real Interpreter.get_contextual_state, each a real RandomReferenceContext; same target, "
+        "parent rows, global scope) share one row history, and recipes with several random_reference call sites on one "
+        "target (two fields, two templates, a macro included by several templates, a YAML alias, two sites in one field "
+        "behind `if`, flow style = one source line; unique / parent / scope; targets plain, by nickname, two templates, "
+        "just_once, growing, interleaved with the pickers); every run is read back as a trace (saves, iteration ends, one "
+        "operation per reference cell with its call site and parent row) that the model must reproduce cell by cell from "
+        "the recorded random draws, including that the run fails exactly when a site of the next row has to be refused; "
+        "oracle per call site: eligible row, never twice under one parent row, refused only after using every eligible "
+        "row.  non-trivial: >= 1 random reference was produced; distinct by case hash")
 TRUSTED = ["harness/oracle_random.py (random.Random._randbelow patched to inject draws)",
-           "harness/c10.py drives snowfakery.row_history.RowHistory / RandomReferenceContext directly"]
+           "harness/c10.py drives snowfakery.row_history.RowHistory / RandomReferenceContext directly",
+           "harness/c10.py derive_trace: the attribution of reference cells to call sites (table + field [+ parity of the "
+           "row id for `if`]) and of parent rows (the row's `par: reference Q` cell), cross-checked against the statically "
+           "expanded row sequence; unattributable runs are skipped, never failed"]
 ASSUMPTIONS = ["randint(a,b) returns an integer in [a,b] (theorems quantify over all such draws)",
+               "randint(a,b) = a + _randbelow(b-a+1) (CPython), used to replay plain references from the recorded stream",
                "sqlite stores and returns the saved rows faithfully (row payloads are not compared)"]
 
+WINDOW_BACK = "C10-unique-window-moves-back"
 TABLES = ["A", "B"]
 NICKS = {"aa": "A", "a2": "A", "bb": "B"}
 
@@ -157,6 +173,215 @@ def gen_recipe(rng, t=None, p=None, layout=None, unique=None):
             "raw": [rng.randint(0, 10 ** 6) for _ in range(400)]}
 
 
+# ------------------------------------------------------------------ generation: several call sites, kernel level
+def gen_mscript(rng):
+    """several call sites (RandomReferenceContext objects obtained through get_contextual_state) over ONE row
+    history: sites aimed at the same target (same or different scope / parent) are the rule, not the exception"""
+    names = dict(NICKS)
+    names.update({t: t for t in TABLES})
+    counters = {}
+    if rng.random() < 0.2:
+        for t in TABLES:
+            if rng.random() < 0.7:
+                counters[t] = rng.randint(1, 3)
+    main = rng.choice(["A", "A", "aa", "B"])
+    nsites = rng.randint(2, 4)
+    sites = []
+    for s in range(1, nsites + 1):
+        name = main if rng.random() < 0.75 else rng.choice(TABLES + list(NICKS))
+        sites.append({"site": s, "name": name, "glob": rng.random() < 0.15, "parented": rng.random() < 0.3})
+    next_id = {t: counters.get(t, 0) for t in TABLES}
+    ptoken = 0
+    ops = []
+    pool = {}                 # (site, parent) -> rough number of fresh targets left (only steers the generator)
+
+    def saved(t, nick):
+        next_id[t] += 1
+        ops.append(["save", t, nick, next_id[t]])
+        for st in sites:
+            if st["name"] in (t, nick):
+                for k in list(pool):
+                    if k[0] == st["site"]:
+                        pool[k] += 1
+                st["fresh"] = st.get("fresh", 0) + 1
+    mt = NICKS.get(main, main)
+
+    def save_main():
+        saved(mt, main if main in NICKS else rng.choice([None, None, "aa"] if mt == "A" else [None, "bb"]))
+    for _ in range(rng.randint(0, 4)):
+        save_main()
+    for _ in range(rng.randint(6, 30)):
+        r = rng.random()
+        if r < 0.28:
+            if rng.random() < 0.75:
+                save_main()
+            else:
+                t = rng.choice(TABLES)
+                saved(t, rng.choice([None] + [n for n, tt in NICKS.items() if tt == t]))
+        elif r < 0.36:
+            ops.append(["reset"])
+            pool.clear()
+            for st in sites:
+                st["fresh"] = 0
+            if rng.random() < 0.8:          # most iterations create rows of the target before it is referenced
+                for _ in range(rng.randint(1, 3)):
+                    save_main()
+        elif r < 0.43:
+            ops.append(["ref", rng.choice([main, main] + TABLES + list(NICKS) + ["Zed"]), rng.random() < 0.15])
+        elif r < 0.49:
+            ptoken += 1                      # a new parent row begins
+        else:
+            st = rng.choice(sites)
+            p = 0
+            if st["parented"]:
+                p = max(ptoken, 1) if rng.random() < 0.92 else rng.randint(1, max(ptoken, 1))
+            key = (st["site"], p)
+            if key not in pool:
+                pool[key] = st.get("fresh", 0)
+            if pool[key] <= 0 and rng.random() < 0.85:
+                continue                     # mostly ask while something is left; sometimes run into the refusal
+            pool[key] -= 1
+            ops.append(["uref", st["site"], p, st["name"], st["glob"]])
+    sites = [{k: v for k, v in st.items() if k != "fresh"} for st in sites]
+    return {"kind": "mscript", "counters": sorted(counters.items()), "names": sorted(names.items()), "ops": ops,
+            "nsites": nsites, "same_target": len({(x["name"]) for x in sites}) < nsites,
+            "raw": [rng.randint(0, 10 ** 6) for _ in range(120)]}
+
+
+# ------------------------------------------------------------------ generation: several call sites, recipe level
+def _sitedef(to, unique, parent=None, glob=False):
+    d = {"to": to}
+    if unique:
+        d["unique"] = True
+    if parent:
+        d["parent"] = parent
+    if glob:
+        d["scope"] = "prior-and-current-iterations"
+    if list(d) == ["to"]:
+        return {"random_reference": to}
+    return {"random_reference": d}
+
+
+def _site_of_def(v):
+    rr = v["random_reference"]
+    if isinstance(rr, str):
+        return {"to": rr, "unique": False, "parent": None, "glob": False}
+    return {"to": rr["to"], "unique": bool(rr.get("unique")), "parent": rr.get("parent"),
+            "glob": rr.get("scope") == "prior-and-current-iterations"}
+
+
+def gen_multi(rng, t=None, c=None):
+    """recipes in which SEVERAL random_reference call sites are aimed at the same target: two fields of one
+    template, fields of two templates, one definition included from a macro by several templates, one definition
+    shared through a YAML alias, the whole recipe on one line (flow style); with and without `unique`, `parent`
+    (enclosing row, or the row of an earlier template) and `scope`; targets by table / nickname / fed by two
+    templates / just_once / growing while they are consumed"""
+    import json as _json
+    import yaml
+    t = rng.choice([0, 1, 2, 3, 3, 4, 4, 5, 6]) if t is None else t
+    tlayout = rng.choice(["plain", "plain", "nick", "two", "once", "once_plus", "growth", "interleaved"])
+    stmts = []
+    grow_friends = []
+    if tlayout == "plain":
+        stmts.append(tpl("A", t)); tos = ["A"]
+    elif tlayout == "nick":
+        stmts += [tpl("A", t, nick="aa"), tpl("A", rng.randint(0, 2))]; tos = ["aa", "aa", "A"]
+    elif tlayout == "two":
+        stmts += [tpl("A", t), tpl("A", rng.randint(0, 2), nick="a2")]; tos = ["A", "A", "a2"]
+    elif tlayout == "once":
+        stmts.append(tpl("A", max(t, 1), once=True, nick="aa")); tos = ["A", "aa"]
+    elif tlayout == "once_plus":
+        n2 = rng.choice([None, "aa"])
+        stmts += [tpl("A", rng.randint(1, 2), once=True, nick=rng.choice([None, "a2"])), tpl("A", max(t, 1), nick=n2)]
+        tos = ["A"] + ([n2] if n2 else [])
+    elif tlayout == "interleaved":          # rows of the target are created between the pickers of one iteration
+        stmts.append(tpl("A", rng.randint(1, 3), once=rng.random() < 0.7)); tos = ["A"]
+    else:                                   # growth: pickers are friends of the target template
+        g = tpl("A", max(t, 1))
+        g["friends"] = grow_friends
+        stmts.append(g); tos = ["A"]
+    if rng.random() < 0.3:
+        stmts.append(tpl("B", rng.randint(1, 4), nick="bb")); tos += ["B", "bb"]
+    main = tos[0]
+    q_kids, q_friends = [], []
+    q = {"object": "Q", "count": rng.randint(1, 3)}
+    stmts.append(q)
+    # definitions written once and used from several places
+    shared = _sitedef(main, True, rng.choice([None, None, "Q"]), rng.random() < 0.1)
+    macro_fields = {"mr1": _sitedef(main, rng.random() < 0.85, rng.choice([None, None, "Q"]), rng.random() < 0.1)}
+    if rng.random() < 0.3:
+        macro_fields["mr2"] = _sitedef(rng.choice(tos), rng.random() < 0.7)
+    use_macro = rng.random() < 0.45
+    use_alias = rng.random() < 0.35
+    npick = rng.randint(1, 3)
+    if use_macro or use_alias:
+        npick = max(npick, rng.choice([1, 2, 2]))
+    sites = []
+    shared_uses = 0
+    for k in range(1, npick + 1):
+        table = f"P{k}"
+        cnt = (rng.randint(1, max(1, min(t, 4))) if rng.random() < 0.75 else rng.randint(1, 4)) if c is None else c
+        place = rng.choice(["top", "top", "qfriend", "qnested"] + (["grow"] * 6 if tlayout == "growth" else [])
+                           + (["qfriend"] * 4 if tlayout == "interleaved" else []))
+        grow = place == "grow"
+        if grow:
+            cnt = rng.randint(1, 2)
+        fields = {} if grow else {"par": {"reference": "Q"}}
+        include = None
+        if use_macro and (k <= 2 or rng.random() < 0.5):
+            if not (grow and any(_site_of_def(v)["parent"] for v in macro_fields.values())):
+                include = "m1"
+        nown = rng.randint(0 if include else 1, 3)
+        for j in range(1, nown + 1):
+            if use_alias and rng.random() < 0.6 and not (grow and _site_of_def(shared)["parent"]):
+                fields[f"r{j}"] = shared          # the very same object: dumped as anchor / alias
+                shared_uses += 1
+            elif rng.random() < 0.15:       # two call sites in ONE field, evaluated for even / odd row ids
+                fields[f"r{j}"] = {"if": [{"choice": {"when": "${{id % 2 == 0}}", "pick": _sitedef(main, True)}},
+                                          {"choice": {"pick": _sitedef(main, rng.random() < 0.8)}}]}
+            else:
+                par = "Q" if (not grow and rng.random() < 0.3) else None
+                fields[f"r{j}"] = _sitedef(main if rng.random() < 0.75 else rng.choice(tos), rng.random() < 0.8,
+                                           par, rng.random() < 0.1)
+        pt = {"object": table, "count": cnt}
+        if fields:
+            pt["fields"] = fields
+        if include:
+            pt["include"] = include
+        order = (list(macro_fields.items()) if include else []) + [(f, v) for f, v in fields.items() if f != "par"]
+        for f, v in order:
+            branches = [(None, v)] if "if" not in v else [("even", v["if"][0]["choice"]["pick"]),
+                                                          ("odd", v["if"][1]["choice"]["pick"])]
+            for when, bv in branches:
+                sd = _site_of_def(bv)
+                sd.update({"table": table, "field": f, "site": len(sites) + 1, "place": place, "when": when,
+                           "via": "if-branch" if when else "macro" if (include and f in macro_fields) else
+                                  ("alias" if v is shared else "own")})
+                sites.append(sd)
+        {"top": stmts, "qfriend": q_friends, "qnested": q_kids, "grow": grow_friends}[place].append(pt)
+    if shared_uses < 2:
+        for sd in sites:
+            if sd["via"] == "alias":
+                sd["via"] = "own"
+    if q_kids:
+        q["fields"] = {"kid": q_kids}
+    if tlayout == "interleaved":
+        q_friends.append(tpl("A", rng.randint(1, 2)))
+    if q_friends:
+        q["friends"] = q_friends
+    if tlayout == "growth" and not grow_friends:
+        del stmts[0]["friends"]
+    if any(sd["via"] == "macro" for sd in sites):
+        stmts.insert(0, {"macro": "m1", "fields": macro_fields})
+    stmts.append(tpl(MARK))
+    flow = rng.random() < 0.25
+    text = yaml.safe_dump(stmts, sort_keys=False, default_flow_style=flow, width=10 ** 6)
+    plain = _json.loads(_json.dumps(stmts))       # aliases expanded: a structural copy for the harness
+    return {"kind": "multi", "tlayout": tlayout, "t": t, "text": text, "stmts": plain, "sites": sites, "flow": flow,
+            "reps": rng.choice([1, 2, 2, 3]), "bias": rng.choice(["lo", "hi", "mix", "mix"]),
+            "raw": [rng.randint(0, 10 ** 6) for _ in range(400)]}
+
+
 def generate(rng, tier):
     cases = []
     for _ in range(350 if tier == "quick" else 9000):
@@ -171,6 +396,15 @@ def generate(rng, tier):
                         cases.append(gen_recipe(rng, t, p, layout, unique))
     for _ in range(260 if tier == "quick" else 3000):
         cases.append(gen_recipe(rng))
+    for _ in range(350 if tier == "quick" else 5000):
+        cases.append(gen_mscript(rng))
+    if tier == "thorough":
+        for t in range(0, 6):
+            for c in range(1, 5):
+                for _ in range(6):
+                    cases.append(gen_multi(rng, t, c))
+    for _ in range(450 if tier == "quick" else 4000):
+        cases.append(gen_multi(rng))
     return cases
 
 
@@ -261,8 +495,119 @@ def run_recipe(case):
     return {"ok": cap.rows, "draws": list(rec.values)}
 
 
+def _scope(glob):
+    return "prior-and-current-iterations" if glob else "current-iteration"
+
+
+def run_mscript(case):
+    """several call sites over one real RowHistory: the state of each site is fetched through the real
+    Interpreter.get_contextual_state (driven with a stub interpreter; a plain dict stands in if it cannot be
+    called that way), each state is a real RandomReferenceContext"""
+    from types import SimpleNamespace
+    from snowfakery.row_history import RowHistory, RandomReferenceContext
+    names = dict(case["names"])
+    rhist = RowHistory(dict(case["counters"]), sorted(set(names.values())), names)
+
+    class _Ctx:
+        unique_context_identifier = None
+        cur = None
+
+        def field_vars(self):
+            return {"PARENT": self.cur}
+    ctx = _Ctx()
+    interp = SimpleNamespace(current_context=ctx, instance_states={})
+    getter = None
+    try:        # can the real get_contextual_state be driven with this stub?  (first use, reuse, parent change)
+        from snowfakery.data_generator_runtime import Interpreter
+        g = Interpreter.get_contextual_state
+        box = iter([[1], [2], [3], [4]])
+        mk = lambda: next(box)      # noqa
+        p1, p2 = object(), object()
+        a = g(interp, make_state_func=mk, name=("probe",), parent=None)
+        b = g(interp, make_state_func=mk, name=("probe",), parent=None)
+        ctx.cur = p1
+        c = g(interp, make_state_func=mk, name=("probe", 2), parent="PARENT")
+        d = g(interp, make_state_func=mk, name=("probe", 2), parent="PARENT")
+        ctx.cur = p2
+        e = g(interp, make_state_func=mk, name=("probe", 2), parent="PARENT")
+        if a == [1] and b is a and c == [2] and d is c and e == [3]:
+            getter = g
+    except Exception:
+        getter = None
+    ctx.cur = None
+    interp.instance_states = {}
+    parents, own = {}, {}
+
+    def state(site, p, make):
+        if getter:
+            ctx.cur = parents.setdefault(p, object()) if p else None
+            return getter(interp, make_state_func=make, name=("site", site), parent="PARENT" if p else None)
+        cur = own.get(site)
+        if cur is None or cur[0] != p:
+            own[site] = cur = (p, make())
+        return cur[1]
+    obs = []
+    raw = case["raw"]
+    with injected_randbelow(raw=raw) as rec:
+        for op in case["ops"]:
+            if op[0] == "save":
+                rhist.save_row(op[1], op[2], {"id": op[3]})
+                obs.append(["none"])
+            elif op[0] == "reset":
+                rhist.reset_locals()
+                obs.append(["none"])
+            elif op[0] == "ref":
+                try:
+                    ref = RandomReferenceContext(rhist, op[1], _scope(op[2])).next()
+                    obs.append(["ref", ref._tablename, ref.id])
+                except BaseException as e:
+                    if type(e).__name__ in ("_CaseTimeout", "OracleExhausted"):
+                        raise
+                    obs.append(["err", C.canon_exc(e)])
+            else:
+                _, site, p, name, glob = op
+                try:
+                    c = state(site, p, lambda: RandomReferenceContext(rhist, name, _scope(glob), unique=True))
+                    ref = c.next()
+                    obs.append(["ref", ref._tablename, ref.id])
+                except BaseException as e:
+                    if type(e).__name__ in ("_CaseTimeout", "OracleExhausted"):
+                        raise
+                    obs.append(["err", C.canon_exc(e)])
+                    break       # a recipe stops at the first failing unique reference; so does the model
+    return {"obs": obs, "draws": list(rec.values), "states": "real" if getter else "stub"}
+
+
+def run_multi(case):
+    from snowfakery.data_generator import generate
+    from snowfakery.api import SnowfakeryApplication
+    from snowfakery.data_generator_runtime import StoppingCriteria
+    from .sfcore import make_capture
+    cap = make_capture()
+    raw = case["raw"]
+    bias = case["bias"]
+
+    def chooser(n, idx):
+        r = raw[idx % len(raw)]
+        if bias == "lo":
+            return 0 if r % 3 else r % n
+        if bias == "hi":
+            return n - 1 if r % 3 else r % n
+        return (0, n - 1, r % n)[r % 3]
+    app = SnowfakeryApplication(StoppingCriteria("__REPS__", case["reps"]))
+    app.echo = lambda *a, **kw: None
+    with injected_randbelow(chooser=chooser) as rec:
+        try:
+            generate(io.StringIO(case["text"]), {}, cap, app)
+        except BaseException as e:
+            if type(e).__name__ == "_CaseTimeout":
+                raise
+            return {"err": C.canon_exc(e), "msg": str(e)[:200], "rows": cap.rows, "draws": list(rec.values)}
+    return {"ok": cap.rows, "draws": list(rec.values)}
+
+
 def run_impl(case):
-    return run_script(case) if case["kind"] == "script" else run_recipe(case)
+    return {"script": run_script, "recipe": run_recipe, "mscript": run_mscript, "multi": run_multi}[case["kind"]](case)
 
 
 # ------------------------------------------------------------------ model side
@@ -322,7 +667,122 @@ def to_sfcore(case):
         return None
 
 
+def _mop_coq(op):
+    if op[0] == "save":
+        return f"(MSave {C.cstr(op[1])} {C.copt(op[2], C.cstr)} {C.cz(op[3])})"
+    if op[0] == "reset":
+        return "MReset"
+    if op[0] == "ref":
+        return f"(MRef {C.cstr(op[1])} {C.cbool(op[2])})"
+    return f"(MURef {C.cz(op[1])} {C.cz(op[2])} {C.cstr(op[3])} {C.cbool(op[4])})"
+
+
+def _mcase_coq(counters, names, draws, ops, res, tail, fails):
+    cs = C.clist(C.cpair(C.cstr(k), C.cz(v)) for k, v in counters)
+    ns = C.clist(C.cpair(C.cstr(k), C.cstr(v)) for k, v in names)
+    return (f"KMulti (CMulti {cs} {ns} {C.clist(C.cz(d) for d in draws)} {C.clist(_mop_coq(o) for o in ops)} "
+            f"{C.clist(_obs_coq(o) for o in res)} {C.clist(_mop_coq(o) for o in tail)} {C.cbool(fails)})")
+
+
+MULTI_NAMES = sorted({**NICKS, **{t: t for t in TABLES}}.items())
+
+
+def expand(case):
+    """the rows a `multi` recipe writes, in order, all iterations: (table, id, id of the Q row that `parent: Q` /
+    `reference: Q` name while the row is built).  The control flow of these recipes does not depend on data."""
+    out = []
+    ids = Counter()
+    lastq = [0]
+
+    def go(tp):
+        for _ in range(tp.get("count", 1)):
+            table = tp["object"]
+            ids[table] += 1
+            myid = ids[table]
+            if table == "Q":
+                lastq[0] = myid
+            q_now = lastq[0]
+            for v in (tp.get("fields") or {}).values():
+                if isinstance(v, list):
+                    for ch in v:
+                        go(ch)
+            out.append((table, myid, q_now))
+            for fr in tp.get("friends", []):
+                go(fr)
+    for it in range(case["reps"]):
+        for st in case["stmts"]:
+            if "macro" in st or (st.get("just_once") and it > 0):
+                continue
+            go(st)
+    return out
+
+
+def derive_trace(case, obs):
+    """what a `multi` run did to the row history and to the call sites, read off the rows it wrote: saves of target
+    rows, iteration ends, and one (unique) reference operation per random_reference cell, with its call site and
+    the parent row it was evaluated under.  None when the rows cannot be attributed (never a failure)."""
+    rows = obs.get("ok", obs.get("rows", []))
+    fields_of = {}
+    for sd in case["sites"]:
+        fs_ = fields_of.setdefault(sd["table"], [])
+        if sd["field"] not in fs_:
+            fs_.append(sd["field"])
+    order = fields_of
+
+    def site_at(t, k, rowid):
+        for sd in case["sites"]:
+            if sd["table"] == t and sd["field"] == k and sd.get("when") in (None, "even" if rowid % 2 == 0 else "odd"):
+                return sd
+    skel = expand(case)
+
+    def site_op(sd, q):
+        if sd["unique"]:
+            return ["uref", sd["site"], q if sd["parent"] == "Q" else 0, sd["to"], sd["glob"]]
+        return ["ref", sd["to"], sd["glob"]]
+    ops, res = [], []
+    for pos, (t, fs) in enumerate(rows):
+        d = dict((k, v) for k, v in fs)
+        if pos >= len(skel) or skel[pos][0] != t or d.get("id") != ["int", skel[pos][1]]:
+            return None
+        if t == MARK:
+            ops.append(["reset"])
+            res.append(["none"])
+        elif t in TABLES:
+            ops.append(["save", t, d["nk"][1] if "nk" in d else None, skel[pos][1]])
+            res.append(["none"])
+        elif t in order:
+            seen = [k for k, _ in fs if k in order[t]]
+            if seen != order[t]:
+                return None
+            if "par" in d and d["par"] != ["ref", "Q", skel[pos][2]]:
+                return None
+            for k in seen:
+                v = d[k]
+                if v[0] != "ref":
+                    return None
+                ops.append(site_op(site_at(t, k, skel[pos][1]), skel[pos][2]))
+                res.append(["ref", v[1], v[2]])
+    tail = []
+    fails = "err" in obs
+    if fails:
+        if len(rows) >= len(skel) or skel[len(rows)][0] not in order:
+            tail = None         # the run did not fail while a picker row was being built
+        else:
+            t, rid, q = skel[len(rows)]
+            tail = [site_op(site_at(t, k, rid), q) for k in order[t]]
+    return {"ops": ops, "res": res, "tail": tail, "fails": fails}
+
+
 def coq_case(case, obs):
+    if case["kind"] == "mscript":
+        if "draws" not in obs:
+            return None
+        return _mcase_coq(case["counters"], case["names"], obs["draws"], case["ops"][:len(obs["obs"])], obs["obs"], [], False)
+    if case["kind"] == "multi":
+        tr = derive_trace(case, obs)
+        if tr is None or "draws" not in obs or tr["tail"] is None or obs.get("err", "DGE") != "DGE":
+            return None
+        return _mcase_coq([], MULTI_NAMES, obs["draws"], tr["ops"], tr["res"], tr["tail"], tr["fails"])
     if case["kind"] == "recipe":
         r = to_sfcore(case)
         if r is None or "draws" not in obs:
@@ -462,13 +922,127 @@ def _target_name(case):
     return "A"
 
 
+def oracle_trace(label, counters, ops, res, tail, fails):
+    """the property, per call site: a reference names an eligible row (a row of the target that exists; of the
+    current iteration when it has one, unless the scope is global); a unique call site never returns a row twice
+    under one parent row, and it fails only when it has used every eligible row itself"""
+    saved, local = [], []
+    used = {}                # site -> [parent token, rows returned under it]
+    restored = dict(counters)
+
+    def eligible(name, glob):
+        nick = name if name in NICKS else None
+        table = NICKS.get(name, name)
+        rows = [(t, i) for (t, i, n) in saved if t == table and (nick is None or n == nick)]
+        loc = [(t, i) for (t, i, n) in local if t == table and (nick is None or n == nick)]
+        if loc and not glob:
+            return loc
+        old = [(table, i) for i in range(1, restored.get(table, 0) + 1)] if nick is None else []
+        return old + [x for x in rows if x not in old]
+
+    def scope_used(op):
+        u = used.get(op[1])
+        return u[1] if u and u[0] == op[2] else set()
+
+    def window_start(name, e):
+        """how many rows of `name` precede the eligible ones"""
+        nick = name if name in NICKS else None
+        table = NICKS.get(name, name)
+        rows = [(t, i) for (t, i, n) in saved if t == table and (nick is None or n == nick)]
+        if not e or e[0] not in rows:
+            return 0
+        return (restored.get(table, 0) if nick is None else 0) + rows.index(e[0])
+
+    def moved_back(op):
+        """open finding: the site was last used on a later window (rows of an iteration) and is now asked for the
+        whole table again (an iteration without rows of the target at this point)"""
+        u = used.get(op[1])
+        return bool(op[0] == "uref" and u and u[0] == op[2] and window_start(op[3], eligible(op[3], op[4])) < u[2])
+
+    def refusal_ok(op):
+        if op[0] == "ref":
+            return not eligible(op[1], op[2])
+        e = eligible(op[3], op[4])
+        return not e or set(e) <= scope_used(op)
+    for op, o in zip(ops, res):
+        if op[0] == "save":
+            saved.append((op[1], op[3], op[2]))
+            local.append((op[1], op[3], op[2]))
+            continue
+        if op[0] == "reset":
+            local = []
+            continue
+        name, glob = (op[1], op[2]) if op[0] == "ref" else (op[3], op[4])
+        what = f"{'unique ' if op[0] == 'uref' else ''}random_reference to {name}" + \
+               (f" (call site {op[1]}, parent row {op[2] or 'none'})" if op[0] == "uref" else "")
+        e = eligible(name, glob)
+        if o[0] == "ref":
+            got = (o[1], o[2])
+            if got not in e:
+                table = NICKS.get(name, name)
+                if got in [(t, i) for (t, i, n) in saved if t == table]:
+                    why = ("is not among the eligible rows" if got in eligible(name, True) else
+                           "was created under another nickname")
+                    return f"{label}: {what} = {got[0]}({got[1]}) {why}; eligible now: {e[:8]}"
+                return f"{label}: {what} = {got[0]}({got[1]}) names a row that does not exist; eligible now: {e[:8]}"
+            if op[0] == "uref":
+                if got in scope_used(op):
+                    return f"{label}: {what} returned {got[0]}({got[1]}) twice in its scope"
+                if not (op[1] in used and used[op[1]][0] == op[2]):
+                    used[op[1]] = [op[2], set(), 0]
+                used[op[1]][1].add(got)
+                used[op[1]][2] = window_start(name, e)
+        elif o[0] == "err":
+            if moved_back(op) and not refusal_ok(op):
+                return (f"{label}: {what} failed ({o[1]}) [unique-window-moved-back]: the call site was last used on the "
+                        f"rows of an iteration and now falls back to the whole table; unused eligible rows exist")
+            if o[1] != "DGE" and not (o[1] == "AssertionError" and moved_back(op) and refusal_ok(op)):
+                return f"{label}: {what} failed with {o[1]}"      # (a refusal may surface as the range's own assertion)
+            if not refusal_ok(op):
+                left = [x for x in e if x not in scope_used(op)] if op[0] == "uref" else e
+                return (f"{label}: {what} was refused although this call site has not used the eligible row(s) "
+                        f"{left[:6]}")
+    if fails and tail is not None and not any(refusal_ok(op) for op in tail):
+        if any(moved_back(op) for op in tail):
+            return (f"{label}: the run failed while a row was built [unique-window-moved-back]: a unique call site of the "
+                    f"row was last used on the rows of an iteration and now falls back to the whole table; every call "
+                    f"site of the row still had an unused eligible target")
+        return (f"{label}: the run failed while a row with {len(tail)} random_reference call site(s) was built, although "
+                f"each of them still had an unused eligible target")
+    return None
+
+
+def oracle_multi(case, obs):
+    if "err" in obs and obs["err"] != "DGE":
+        return f"multi: internal error {obs['err']}: {obs.get('msg', '')[:100]}"
+    rows = obs.get("ok", obs.get("rows", []))
+    for t, fs in rows:
+        for k, v in fs:
+            if any(sd["table"] == t and sd["field"] == k for sd in case["sites"]) and v[0] != "ref":
+                return f"multi: random_reference produced a non-reference {v}"
+    tr = derive_trace(case, obs)
+    if tr is None:
+        return None
+    msg = oracle_trace(f"multi[{case['tlayout']}]", [], tr["ops"], tr["res"], tr["tail"], tr["fails"])
+    if msg and "err" in obs:
+        msg += f" (run ended with: {obs.get('msg', '')[:70]!r})"
+    return msg
+
+
 def oracle(case, obs):
+    if case["kind"] == "mscript":
+        return oracle_trace("sites", case["counters"], case["ops"], obs["obs"], [], False)
+    if case["kind"] == "multi":
+        return oracle_multi(case, obs)
     return oracle_script(case, obs) if case["kind"] == "script" else oracle_recipe(case, obs)
 
 
 def nontrivial(case, obs):
-    if case["kind"] == "script":
+    if case["kind"] in ("script", "mscript"):
         return any(o[0] == "ref" for o in obs["obs"])
+    if case["kind"] == "multi":
+        keys = {(sd["table"], sd["field"]) for sd in case["sites"]}
+        return any((t, k) in keys for t, fs in obs.get("ok", obs.get("rows", [])) for k, _ in fs)
     return any(k == "r" for _, fs in obs.get("ok", []) for k, _ in fs)
 
 
@@ -482,25 +1056,69 @@ def stats(cases, obss):
                                           for ob in obss if isinstance(ob, dict) and "obs" in ob for o in ob["obs"])),
           "recipe_outcomes": dict(Counter(("ok" if "ok" in ob else ob.get("err")) for ob in obss
                                           if isinstance(ob, dict) and ("ok" in ob or "err" in ob)))}
+    multi = [(c, o) for c, o in zip(cases, obss) if c["kind"] == "multi" and isinstance(o, dict)]
+    ms = [(c, o) for c, o in zip(cases, obss) if c["kind"] == "mscript" and isinstance(o, dict)]
+
+    def same_target_sites(c):
+        cnt = Counter((sd["to"], sd["glob"]) for sd in c["sites"] if sd["unique"])
+        return max(cnt.values()) if cnt else 0
+    st["multi"] = {
+        "target_layouts": dict(Counter(c["tlayout"] for c, _ in multi)),
+        "call_sites_per_recipe": dict(Counter(len(c["sites"]) for c, _ in multi)),
+        "unique_sites_on_one_target": dict(Counter(same_target_sites(c) for c, _ in multi)),
+        "site_written_as": dict(Counter(sd["via"] for c, _ in multi for sd in c["sites"])),
+        "site_placement": dict(Counter(sd["place"] for c, _ in multi for sd in c["sites"])),
+        "site_options": dict(Counter(("unique" if sd["unique"] else "plain") + ("+parent" if sd["parent"] else "")
+                                     + ("+global" if sd["glob"] else "") for c, _ in multi for sd in c["sites"])),
+        "flow_style": sum(1 for c, _ in multi if c["flow"]), "iterations": dict(Counter(c["reps"] for c, _ in multi)),
+        "outcomes": dict(Counter(("ok" if "ok" in o else "err:" + str(o.get("err"))) for _, o in multi)),
+        "traces_attributed": sum(1 for c, o in multi if ("ok" in o or "err" in o) and derive_trace(c, o) is not None),
+    }
+    st["site_scripts"] = {
+        "sites": dict(Counter(c["nsites"] for c, _ in ms)),
+        "several_sites_on_one_target": sum(1 for c, _ in ms if c["same_target"]),
+        "ops": dict(Counter(o[0] for c, _ in ms for o in c["ops"])),
+        "parented_urefs": sum(1 for c, _ in ms for o in c["ops"] if o[0] == "uref" and o[2]),
+        "global_scope_ops": sum(1 for c, _ in ms for o in c["ops"] if (o[0] == "uref" and o[4]) or (o[0] == "ref" and o[2])),
+        "outcomes": dict(Counter(x[0] if x[0] != "err" else "err:" + x[1] for _, o in ms for x in o.get("obs", []))),
+        "states_from": dict(Counter(o.get("states") for _, o in ms)),
+    }
     return st
 
 
+def _renumbered(case, ops):
+    nxt = dict(case["counters"])
+    out = []
+    for o in ops:
+        if o[0] == "save":
+            nxt[o[1]] = nxt.get(o[1], 0) + 1
+            o = [o[0], o[1], o[2], nxt[o[1]]]
+        out.append(o)
+    return out
+
+
 def shrink(case):
-    if case["kind"] == "script":
+    if case["kind"] == "mscript":
+        ops = case["ops"]
+        for i in range(len(ops)):
+            yield dict(case, ops=_renumbered(case, ops[:i] + ops[i + 1:]))
+    elif case["kind"] == "script":
         ops = case["ops"]
         for i in range(len(ops)):
             yield dict(case, ops=ops[:i] + ops[i + 1:])
-    else:
-        if case["reps"] > 1:
-            yield dict(case, reps=case["reps"] - 1)
+    elif case["reps"] > 1 and len(case.get("ks") or [1]) == 1:
+        yield dict(case, reps=case["reps"] - 1, ks=[case["reps"] - 1])
 
 
 def directed_search(rng, disagreeing):
-    return [gen_script(rng) for _ in range(1500)] + [gen_recipe(rng) for _ in range(600)]
+    return ([gen_script(rng) for _ in range(1500)] + [gen_recipe(rng) for _ in range(600)] +
+            [gen_mscript(rng) for _ in range(1000)] + [gen_multi(rng) for _ in range(1000)])
 
 
 def match_finding(case, obs, msg, findings):
     ids = {f["id"] for f in findings}
+    if WINDOW_BACK in ids and case["kind"] in ("mscript", "multi") and "[unique-window-moved-back]" in msg:
+        return WINDOW_BACK
     if "K3" in ids:
         if case["kind"] == "script" and case.get("out_of_order"):
             return "K3"
